@@ -141,6 +141,12 @@ KindRules == [tcp |-> {"stream"}, unix |-> {"stream"}, unixwrapped |-> {"stream"
               udp |-> {"dgram"}, unixgram |-> {"dgram"}, udpwrapped |-> {"dgram"},
               unixpacket |-> {"stream", "dgram"}]
 Kinds == DOMAIN KindRules
+(* The rule belongs to the exchange, not to the Conn object: what counts is   *)
+(* the kind of the transport the Conn points at when the exchange is made.    *)
+(* A Conn that was used over one kind and is then pointed at another (the     *)
+(* retry over TCP after a truncated UDP reply) follows the new kind's rule    *)
+(* and framing from the next exchange on.                                     *)
+\* (RepointResults, at the end of the module)
 
 \* closed form
 IdResult(transport, inbox, dl, mine) ==
@@ -152,4 +158,6 @@ IdResult(transport, inbox, dl, mine) ==
     LET hits == { i \in 1..Len(arrived) : arrived[i] = mine } IN
     IF hits = {} THEN [res |-> "timeout", idx |-> 0]
     ELSE [res |-> "ok", idx |-> CHOOSE i \in hits : \A j \in hits : i <= j]
+\* the results admitted for the second of two exchanges made with one Conn over transports of kind first, then second
+RepointResults(first, second, inbox, dl, mine) == { IdResult(t, inbox, dl, mine) : t \in KindRules[second] }
 =============================================================================
